@@ -118,6 +118,7 @@ class Unroller:
                 else:
                     tk = {cd: z3.BoolVal(True) for cd in self.domains}
                 self.ticks.append(tk)
+                cross = self._cross_domain_regs() if (self.multiclock and tr.meta_regs is not None and getattr(tr, "meta", False)) else {}
                 for s in tr.regs:
                     cd = tr.reg_domain[s]
                     root = tr.root_clock(cd)
@@ -128,12 +129,54 @@ class Unroller:
                         ch = z3.BitVec("meta_%s@%d" % (tr.names[s], t - 1), len(s))
                         self.choices.append((t - 1, s, ch))
                         nxt = (ch & fv[i_s]) | (~ch & pv[i_s])
+                    elif s in cross:
+                        # a flop whose D input depends on registers of ANOTHER clock domain (no synchroniser in between): when that domain
+                        # ticks in the same instant D changes at the sampling edge and each bit resolves to its old or to its new value
+                        e_res, others = cross[s]
+                        d_new = z3.substitute(e_res, *([(tr.cur[x], fv[x]) for x in others] + [(tr.cur[x], pv[x]) for x in tr.vars if x not in others]))
+                        ch = z3.BitVec("xmeta_%s@%d" % (tr.names[s], t - 1), len(s))
+                        self.choices.append((t - 1, s, ch))
+                        nxt = (ch & d_new) | (~ch & nxt)
                     if root not in tk:
                         B.append(fv[s] == pv[s])
                     elif self.multiclock:
                         B.append(fv[s] == z3.If(tk[root], nxt, pv[s]))
                     else:
                         B.append(fv[s] == nxt)
+
+    def _cross_domain_regs(self):
+        """{reg: (next-state expression over registers/inputs only, registers of other root clocks it reads)} for flops with unsynchronised
+        cross-domain fan-in (the first flops of MultiRegs are handled separately)"""
+        if hasattr(self, "_cross"):
+            return self._cross
+        tr = self.tr
+        res = tr.resolved()
+        rsub = [(tr.cur[c_], e_) for c_, e_ in res.items()]
+        regvar = {tr.cur[r].get_id(): r for r in tr.regs}
+        out = {}
+        for s in tr.regs:
+            if s in tr.meta_regs or getattr(s, "vf_monitor", False):
+                continue
+            cd = tr.reg_domain[s]
+            root = tr.root_clock(cd)
+            e_res = z3.substitute(tr.next[cd][s], *rsub) if rsub else tr.next[cd][s]
+            seen, stack, others = set(), [e_res], set()
+            while stack:
+                x = stack.pop()
+                i = x.get_id()
+                if i in seen:
+                    continue
+                seen.add(i)
+                if z3.is_const(x):
+                    r = regvar.get(i)
+                    if r is not None and tr.root_clock(tr.reg_domain[r]) != root:
+                        others.add(r)
+                    continue
+                stack.extend(x.children())
+            if others:
+                out[s] = (e_res, others)
+        self._cross = out
+        return out
 
     # --- helpers for harness constraints ---------------------------------------------------------
     def at(self, sig, t):
